@@ -6,6 +6,7 @@ import warnings
 import numpy as np
 from hypothesis import strategies as st
 
+from vlib import sigfile
 from vlib import strategies as vs
 from vlib.core import Info, SubCheck, Violation, require
 
@@ -156,6 +157,7 @@ def strat_fb(draw, tier):
     return {"layout": lay, "nbins": nbins, "nints": nints, "nbands": nbands, "ratio": ratio, "accel": accel,
             "tsamp": draw(st.sampled_from([2.0**-10, 2.0**-10, 64e-6, 1e-3, 0.000327])),
             "md_target": md, "gulp": gulp, "fch1": draw(st.sampled_from([1400.0, 800.0])), "prior": draw(vs.prior_use(N)), "again": draw(st.booleans()),
+            "sec_start": draw(st.sampled_from([0, 0, 7, 33])), "sec_tail": draw(st.sampled_from([0, 0, 11])),
             "foff": -draw(st.sampled_from([1.0, 4.0, 10.0]))}
 
 
@@ -173,6 +175,7 @@ def check_fb(case, ctx):
     d = ctx.fresh_dir()
     tsamp = case.get("tsamp", TSAMP)
     paths, D, _, _ = vs.write_layout(lay, d, fch1=case["fch1"], foff=case["foff"], tsamp=tsamp)
+    sec_kw = {}
     N, nchans = D.shape
     nbins, nints, nbands = case["nbins"], case["nints"], case["nbands"]
     period = case["ratio"] * tsamp
@@ -191,7 +194,7 @@ def check_fb(case, ctx):
             warnings.simplefilter("ignore")
             try:
                 return (reader or FilReader(paths)).fold(period, dm, accel=accel, nbins=nbins, nints=nints, nbands=nbands,
-                                                         gulp=gulp, quiet=True, description="v")
+                                                         gulp=gulp, quiet=True, description="v", **sec_kw)
             except Exception as exc:  # noqa: BLE001
                 raise Violation(f"fold:raised:{type(exc).__name__}", f"{ctxt} (gulp={gulp}): {exc!r}") from exc
 
@@ -200,6 +203,28 @@ def check_fb(case, ctx):
     one = run(N + 10)
     if not same_cube(cube.data, one.data):
         raise Violation("fold:gulp-dependent", ctxt)
+    if case.get("sec_start"):
+        # folding a section (start, nsamps): what tobs and the sub-integration division refer to for a section is not
+        # fixed by the property, so no absolute oracle - but WHERE the section starts may not matter: the same samples at
+        # the head of a file of the same length, folded from 0, must give the same cube
+        import os as _os
+
+        s0 = case["sec_start"]
+        n0 = N - s0 - case.get("sec_tail", 0)
+        d2 = _os.path.join(d, "shifted")
+        _os.mkdir(d2)
+        D2 = np.concatenate([D[s0:], D[:s0]])
+        p2, _, _ = sigfile.write_stream(d2, D2, lay["nbits"], [N], fch1=case["fch1"], foff=case["foff"], tsamp=tsamp)
+        kwf = dict(accel=accel, nbins=nbins, nints=nints, nbands=nbands, gulp=case["gulp"], quiet=True, description="v")
+        with warnings.catch_warnings():
+            warnings.simplefilter("ignore")
+            try:
+                ca = FilReader(paths).fold(period, dm, start=s0, nsamps=n0, **kwf)
+                cb = FilReader(p2).fold(period, dm, start=0, nsamps=n0, **kwf)
+            except Exception as exc:  # noqa: BLE001
+                raise Violation(f"fold:section:raised:{type(exc).__name__}", f"{ctxt} start={s0} nsamps={n0}: {exc!r}") from exc
+        if not same_cube(ca.data, cb.data):
+            raise Violation("fold:section-depends-on-where-it-starts", f"{ctxt}: fold(start={s0}, nsamps={n0}) differs from the fold of the same samples placed at the head of a file of the same length")
     if case.get("again"):
         # a period search folds the same reader again and again: same answer, and the cube handed out earlier
         # belongs to the caller
